@@ -260,8 +260,9 @@ Print Assumptions C02_full_model_stored_status.
    never the current or the update revision; the sorted de-duplicated list of the next revision phase is the old one
    without the deleted names (insertion sort and the name de-duplication commute with a filter by name); and
    getStatefulSetRevisions resolves the same current and update revision on the shorter list.  The one extra premise:
-   the update revision carries no NUMERIC hash label (hash_num = None; the names the controller generates are
-   safe-encoded and never parse as a decimal number).  Without it EqualRevision is not transitive, the revision that
+   the update revision carries no NUMERIC hash label (hash_num = None; the labels the controller generates are
+   safe-encoded decimal strings: digits 0-5 map to digits, 6-9 to letters, so a label parses as an int32 for roughly one
+   template in 400).  Without it EqualRevision is not transitive, the revision that
    made the update revision "equal" can be truncated away, and the next round creates a fresh update revision —
    so the premise is needed for the statement with a fixed update revision, not an artefact of the proof. *)
 Theorem C02_full_model_converges_any_history :
@@ -347,6 +348,16 @@ Example C02_ex_any_history :
   /\ map r_name (w_revs (ty_W 1)) = ["web-h1"; "web-h2"]%string
   /\ map r_name (w_revs (ty_W 8)) = ["web-h2"]%string.
 Proof. split; [exact ty_converges|]. destruct ty_truncates as (A & B & C & _). repeat split; assumption. Qed.
+(* the premise on the hash label is needed (TruncExample.v): web-l, label "5", is the update revision only through
+   web-e (unparsable label, same template), which nothing refers to; with revisionHistoryLimit 0 the first round
+   truncates web-e, and the second round, expecting label "7", finds no equal revision and creates one *)
+Example C02_ex_numeric_hash_premise_needed :
+  gsr_value nh_hashes nh_set (sort_revs (lrevs nh_w0 nh_set)) = Some (nh_rev "web-l" 2 "5", nh_rev "web-l" 2 "5", 0)
+  /\ nothing_to_adopt nh_w0 nh_set = true
+  /\ hash_num (nh_rev "web-l" 2 "5") = Some 5
+  /\ map r_name (w_revs nh_w1) = ["web-l"]%string
+  /\ map r_name (w_revs nh_w2) = ["web-l"; "web-7"]%string.
+Proof. exact nh_premise_needed. Qed.
 Example C02_ex_any_history_goes_quiet :
   exists k, Z.of_nat k <= 8
     /\ forall m, (k <= m)%nat -> pods_converged ty_set rx_upd 4 [1] (w_pods (ty_W m)) /\ quietb ex_hashes (ty_W m) (ty_W m) = true.
